@@ -231,7 +231,7 @@ func (h *fasthttpHandler) readReqMsg(ctx *fasthttp.RequestCtx) *dnsmsg.Msg {
 		}
 		buf := pool.GetBuf(msgSize)
 		defer pool.ReleaseBuf(buf)
-		_, err := base64.RawURLEncoding.Decode(buf, base64Dns)
+		n, err := base64.RawURLEncoding.Decode(buf, base64Dns)
 		if err != nil {
 			h.logger.Warn().
 				Object("request", (*fasthttpReqLoggerObj)(ctx)).
@@ -240,7 +240,9 @@ func (h *fasthttpHandler) readReqMsg(ctx *fasthttp.RequestCtx) *dnsmsg.Msg {
 			ctx.SetStatusCode(fasthttp.StatusBadRequest)
 			return nil
 		}
-		reqWireMsg = buf
+		// The decoder skips '\r' and '\n', n can be smaller than msgSize. What is
+		// behind n is the previous content of the pooled buffer.
+		reqWireMsg = buf[:n]
 
 	case ctx.IsPost():
 		// Check Content-Type header
